@@ -189,21 +189,31 @@ Definition probe_storage_arch (cfg : config) (k : kind) (s : storage) (h : handl
 Definition npaths_world (typed : bool) : nat := if typed then 6 else 4.
 
 (* ---- conversions between handle types (entity.rs and the Select* enums of generate/world.rs) *)
-Definition conv_obs (archs : list darch) (k : kind) (h : handle) : list N :=
-  let idof := match k with KEnt => key_arch_id (fst h) | KDir => dkey_arch_id (fst h) end in
-  if (match k with KEnt => negb (raw_ok (snd h)) | KDir => false end) then [5%N]
-  else
-    [1%N; fst h; snd h; idof]
-    ++ concat ((fun a => if id_ok k (fst h) (da_id a) then [1%N; fst h; snd h; da_id a] else [0%N]) <$> archs)
-    ++ (match find_arch archs idof with Some a => [N.of_nat a; fst h; snd h] | None => [255%N] end)
-    ++ (match k with
-        | KEnt =>
-            (match find_arch archs idof, find_arch archs idof ≫= (fun a => archs !! a) with
-             | Some a, Some ad => [N.of_nat a; da_id ad] | _, _ => [255%N] end)
-            ++ (match find_arch archs idof with Some a => [N.of_nat a] | None => [255%N] end)
-            ++ [hash_word (fst h) (snd h); 1%N]
-        | KDir => [dhash_word (fst h) (snd h)]
-        end).
+Definition conv_obs (archs : list darch) (k : kind) (h0 : handle) : list N :=
+  match k with
+  | KEnt =>
+      match from_raw h0 with
+      | None => [5%N]
+      | Some h =>
+          [1%N; fst (raw_of h); snd (raw_of h); handle_archetype_id h]
+          ++ concat ((fun a => match try_from_any (da_id a) h with
+                               | Some t => [1%N; fst (raw_of (into_any t)); snd (raw_of (into_any t)); da_id a]
+                               | None => [0%N] end) <$> archs)
+          ++ (match select_entity archs h with Some a => [N.of_nat a; fst h; snd h] | None => [255%N] end)
+          ++ (match select_entity archs h, select_entity archs h ≫= (fun a => archs !! a) with
+              | Some a, Some ad => [N.of_nat a; da_id ad] | _, _ => [255%N] end)
+          ++ (match find_arch archs (handle_archetype_id h) with Some a => [N.of_nat a] | None => [255%N] end)
+          ++ [handle_hash_word h; 1%N]
+      end
+  | KDir =>
+      let h := h0 in
+      [1%N; fst h; snd h; dkey_arch_id (fst h)]
+      ++ concat ((fun a => match try_from_dany (da_id a) h with
+                           | Some t => [1%N; fst t; snd t; da_id a]
+                           | None => [0%N] end) <$> archs)
+      ++ (match select_direct archs h with Some a => [N.of_nat a; fst h; snd h] | None => [255%N] end)
+      ++ [dhash_word (fst h) (snd h)]
+  end.
 
 (* ---- the step function *)
 Definition ret (st : rstate) (o : list N) : stepres := Some (st, o).
